@@ -252,9 +252,11 @@ def run_case(case):
     model = A.model_from_spec(spec)
     img, layout = A.build_akai(model)
     expected = A.expected_exports_pairs(model)
-    res = tree.full_run(img, cpu_s=20.0, ls_paths=("",))
+    res = tree.full_run(img, cpu_s=20.0, ls_paths=("",), again=case["sweep"] in ("structure", "names", "slots", "header"))
     if res["status"] == "hang":
         return False, "hang", {"observed": "non-termination (cpu budget)"}
+    if res.get("again"):
+        return False, "second-export-differs", res["again"]
     if res["status"] == "exc":
         return False, "raised:" + exc_sig(res["exc"]), {"observed": repr(res["exc"])[:300], "files": sorted(res["files"])[:5]}
     if case["sweep"] == "names":
@@ -291,7 +293,8 @@ class Check(CheckBase):
             "single deviations; (names) 9 families of names using the non-letter characters of the AKAI set (. # + - digits "
             "blanks, 12 characters) x 4 volume names, judged by content only; (slots) every set of <=3 (thorough 4) occupied "
             "volume-table slots out of {0,1,2,3,50,98,99} in both storage orders; (bigdir) volumes of 63..510 one-sector samples "
-            "(around powers of two and the 340-entry capacity of a one-sector file table). non-trivial = non ascending-contiguous multi-sector chain, or file filling its last "
+            "(around powers of two and the 340-entry capacity of a one-sector file table); the header, structure, names and slots "
+            "cases export twice from one image object and the second export must equal the first. non-trivial = non ascending-contiguous multi-sector chain, or file filling its last "
             "sector exactly, or >1 partition/volume")
     assumptions = ["independent AKAI writer (mcv/gen/akai.py) and RIFF walker are correct",
                    "names are plain and collision-free here (collisions: C05/C06)"]
